@@ -229,7 +229,10 @@ struct Impl {
   // encode a text through DataField::write into an empty symbol string
   int encode(const Cfg& c, const string& text, vector<uint8_t>* out) {
     std::istringstream in(text);
-    errno = 0;  // errno stickiness of the number parser is the subject of C12, not of C05/C06
+    // "after any history": the worst history for the C library number parsers is one that left errno == ERANGE
+    // (an earlier overflowing input in the same thread).  It is emulated directly before every encode, so a parser
+    // that tests errno without clearing it first fails every round trip (C12 explores the histories themselves).
+    errno = ERANGE;
     calls++;
     result_t r;
     if (c.fs.master) {
